@@ -434,3 +434,34 @@ Definition compile_bytes (mapenv : bool) (c : cast) (e : expr) : option program 
 (* Locations as the harness serialises them: entries with the zero Location are left out *)
 Definition locs_nonzero (locs : list (Z * loc)) : list (Z * loc) :=
   filter (fun ql : Z * loc => negb (loc_eqb (snd ql) noloc)) locs.
+
+(* ------------------------------------------------------------------ the carve-out of the exactness theorem *)
+(* decode gives back the very code that was assembled unless the index map merged two constants
+   that are equal for Go but not identical: the only such pair is 0.0 / -0.0 (as a constant of its
+   own, behind a named type or in a field of a struct constant).  No negative zero = exact. *)
+Local Open Scope Z_scope.
+Definition negzero (f : float) : bool :=
+  match Prim2SF f with S754_zero true => true | _ => false end.
+
+Fixpoint key_exact (v : value) : bool :=
+  match v with
+  | VNum (NFlt _ f) => negb (negzero f)
+  | VNamed _ x => key_exact x
+  | VStruct _ false fs =>
+      (fix go (l : list (string * value)) : bool :=
+         match l with [] => true | (_, x) :: r => key_exact x && go r end) fs
+  | _ => true
+  end.
+
+Definition const_exact (c : const) : bool := match c with CVal v => key_exact v | _ => true end.
+
+Definition item_const (it : aitem) : option const :=
+  match it with
+  | AConst c => Some c
+  | AIns i _ => match ioperand i with ConstArg c => Some c | _ => None end
+  end.
+
+Definition items_keys_exact (its : list aitem) : bool :=
+  forallb (fun it => match item_const it with Some c => const_exact c | None => true end) its.
+
+Definition code_keys_exact (C : code) : bool := items_keys_exact (items_of_code C).
